@@ -187,17 +187,29 @@ def _den(u):
     return out
 
 
-ABSENT = {"present": False, "ok": False, "den": [], "exc": ""}
+ABSENT = {"present": False, "ok": False, "den": [], "exc": "", "sx": False, "sh": False}
 
 
-def _route(f):
+def _route(f, ref=None, href=None):
+    """one route; ref: the unit the same string gave as a unit string (Unit(n)), href: the unit whose hash must be
+    equal (same registry as this route).  sx: the two are built on the SAME symbol expression (not merely equal by
+    value), sh: equal hashes - what makes the two interchangeable in products, ratios, sets and dict keys."""
+    _U["last"] = None
     try:
         u = f()
     except Exception as e:  # noqa: BLE001
-        return {"present": True, "ok": False, "den": [], "exc": type(e).__name__}
+        return {"present": True, "ok": False, "den": [], "exc": type(e).__name__, "sx": False, "sh": False}
     if not isinstance(u, _U["Unit"]):
-        return {"present": True, "ok": False, "den": [], "exc": "not a Unit: " + type(u).__name__}
-    return {"present": True, "ok": True, "den": _den(u), "exc": ""}
+        return {"present": True, "ok": False, "den": [], "exc": "not a Unit: " + type(u).__name__, "sx": False, "sh": False}
+    sx = sh = True
+    if ref is not None:
+        try:
+            sx = bool(u.expr == ref.expr)
+            sh = bool(hash(u) == hash(href if href is not None else ref))
+        except Exception:  # noqa: BLE001
+            sx = sh = False
+    _U["last"] = u
+    return {"present": True, "ok": True, "den": _den(u), "exc": "", "sx": sx, "sh": sh}
 
 
 def case_string(case, common=None):
@@ -217,18 +229,24 @@ def observe(case):
     n = case_string(case)
     r = {}
     r["str"] = _route(lambda: Unit(n))
-    r["reg"] = _route(lambda: Unit(n, registry=U["reg"]))
-    r["qty"] = _route(lambda: U["uq"](1.0, n).units)
+    ref = U["last"]
+    r["reg"] = _route(lambda: Unit(n, registry=U["reg"]), ref)
+    refreg = U["last"]
+    r["reg"]["sh"] = r["reg"]["sx"]  # another registry: only the expression is compared
+    r["qty"] = _route(lambda: U["uq"](1.0, n).units, ref)
+    # the canonical spelling the tree files the name under (key of name_alternatives), used as a unit string
+    cn = U["inv"].get(n)
+    r["can"] = _route(lambda: Unit(cn), ref) if isinstance(cn, str) else ABSENT
     if case["pk"] == "none":
         v = vars(U["us"]).get(n)
-        r["us"] = _route(lambda: v) if isinstance(v, Unit) else ABSENT
+        r["us"] = _route(lambda: v, ref) if isinstance(v, Unit) else ABSENT
         v2 = vars(U["unyt"]).get(n)
-        r["top"] = _route(lambda: v2) if isinstance(v2, Unit) else ABSENT
+        r["top"] = _route(lambda: v2, ref) if isinstance(v2, Unit) else ABSENT
         v3 = U["ns"].get(n)
         if U["ns_error"] and isinstance(v, Unit) and not n.startswith("_"):
-            r["ns"] = {"present": True, "ok": False, "den": [], "exc": U["ns_error"]}
+            r["ns"] = {"present": True, "ok": False, "den": [], "exc": U["ns_error"], "sx": False, "sh": False}
         else:
-            r["ns"] = _route(lambda: v3) if v3 is not None else ABSENT
+            r["ns"] = _route(lambda: v3, ref, refreg) if v3 is not None else ABSENT
     else:
         r["us"] = r["top"] = r["ns"] = ABSENT
     return {"pk": case["pk"], "pi": case["pi"], "b": case["b"], "r": r}
